@@ -36,6 +36,11 @@ import (
 // Same root cause as C09/header-block-not-ending-in-CRLFCRLF, seen through the self-containment oracle.
 const vpC08KeyLF = "C08/accepted-block-not-ending-in-CRLFCRLF-needs-following-bytes"
 
+// Request.ReadLimitBody pre-parses multipart/form-data bodies with mime/multipart, which stops at the
+// closing boundary: the rest of the Content-Length-delimited body stays unread, and how much of it
+// was pulled out of the bufio.Reader depends on the sizes of the underlying reads.
+const vpC08KeyMP = "C08/multipart-preparse-stops-at-closing-boundary"
+
 var vpC08Sentinel = []byte("\x00\xffVP-SENTINEL\xff\x00")
 
 // ---------------------------------------------------------------------------------------------
@@ -126,10 +131,11 @@ const (
 var vpC08KindName = [...]string{"Request.ReadLimitBody", "Response.ReadLimitBody", "RequestHeader.Read", "ResponseHeader.Read", "RequestHeader.ReadTrailer", "ResponseHeader.ReadTrailer"}
 
 type vpC08Out struct {
-	err      error
-	msg      string // rendering of the returned message (err == nil)
-	consumed int
-	rest     []byte
+	err       error
+	msg       string // rendering of the returned message (err == nil)
+	consumed  int
+	rest      []byte
+	multipart bool // the request came back with a pre-parsed multipart form
 }
 
 func vpC08RenderForm(b *strings.Builder, req *Request) {
@@ -188,6 +194,7 @@ func vpC08Parse(kind int, stream []byte, bufSize int, plan []int, maxBody int, s
 		if o.err == nil {
 			vpC08RenderReqHeader(&b, &req.Header)
 			if req.multipartForm != nil {
+				o.multipart = true
 				vpC08RenderForm(&b, &req)
 			} else {
 				fmt.Fprintf(&b, "body=%q\n", req.Body())
@@ -562,6 +569,11 @@ func vpC08Probe() {
 		tw := vpC08Parse(vpC08ReqTrailer, append(append([]byte(nil), t[3:]...), "GET / HTTP/1.1\r\nHost: a\r\n\r\n"...), 4096, nil, 1, false)
 		ta := vpC08Parse(vpC08ReqTrailer, t[3:], 4096, nil, 1, false)
 		present := (with.err == nil && with.consumed == len(h) && alone.err != nil) || (tw.err == nil && tw.consumed == 1 && ta.err != nil)
+		mp := []byte("POST /mp HTTP/1.1\r\nHost: h\r\nContent-Type: multipart/form-data; boundary=xyz\r\nContent-Length: 47\r\n\r\n--xyz--\r\nGET /smuggled HTTP/1.1\r\nHost: evil\r\n\r\n")
+		m1 := vpC08Parse(vpC08ReqFull, mp, 4096, nil, 1<<20, false)
+		m2 := vpC08Parse(vpC08ReqFull, mp, 4096, []int{1}, 1<<20, false)
+		vpProbe(vpC08KeyMP, m1.err == nil && m2.err == nil && m1.consumed != m2.consumed,
+			fmt.Sprintf("multipart POST with Content-Length 47 whose body is `--xyz--CRLF` + a 38-byte request: one read -> err=%v consumed=%d of %d; byte-by-byte reads -> err=%v consumed=%d", m1.err, m1.consumed, len(mp), m2.err, m2.consumed))
 		vpProbe(vpC08KeyLF, present, fmt.Sprintf("head %q + CRLFCRLF: err=%v consumed=%d; the %d consumed bytes alone: err=%v | trailer \"\\n\" + request: err=%v consumed=%d; alone: err=%v",
 			h, with.err, with.consumed, with.consumed, alone.err, tw.err, tw.consumed, ta.err))
 	})
@@ -642,7 +654,15 @@ func vpC08Check(c *vpC08Case) (complaint, class string, nontrivial bool) {
 		vpExclude(vpC08KeyLF)
 		return "", class + "/lf-class-excluded", true
 	}
-	o2 := vpC08Parse(c.kind, p, c.bufSize, c.plan2, c.maxBody, c.skipBody)
+	plan2 := c.plan2
+	if o.multipart && vpKnownOpen(vpC08KeyMP) {
+		// known finding: consumption of a pre-parsed multipart body depends on the read sizes; keep the
+		// rest of the oracle by re-parsing with the SAME read plan
+		vpExclude(vpC08KeyMP)
+		plan2 = c.plan
+		class += "/multipart-same-plan"
+	}
+	o2 := vpC08Parse(c.kind, p, c.bufSize, plan2, c.maxBody, c.skipBody)
 	if o2.err != nil {
 		return fmt.Sprintf("the %d consumed bytes, parsed alone, are rejected (%v) although they were accepted as a complete message when followed by %s\nconsumed bytes: %q",
 			o.consumed, o2.err, vpQuote(c.stream[o.consumed:], 60), p), class, true
